@@ -2,6 +2,7 @@
 import re
 from analysis.engine import rule, AnchorMissing
 from analysis import cfg
+from analysis.facts import norm_path
 from analysis.sym import sym, show_in, nosite, peel, core, walk, ret_values, args_of, guards_at, atoms_at, \
     variant_facts_at, cmp_facts_at, init_value, edge_guards, symbolizer, simplify, loop_source
 from analysis.pat import match, Call, Cap, ANY, Pred, Const, has, chain_names
@@ -125,6 +126,24 @@ def r2(ctx):
 def r3(ctx):
     from analysis.seq import seq_of, seq_of_iter, ITEM
     from analysis.sym import const_str, defs_of
+    # joining Characters goes through Display: it must print the text of the character verbatim
+    dcands = [x for x in ctx.facts.bodies if x.path.endswith('::fmt') and x.impl_trait and norm_path(x.impl_trait).endswith('fmt::Display') and
+              x.impl_self and norm_path(x.impl_self).startswith('unicode::Character')]
+    if len(dcands) != 1:
+        raise AnchorMissing('Display for Character (found %d)' % len(dcands))
+    d = dcands[0]
+    ctx.stats['bodies_inspected'].add(d.path)
+    SELF_STR = ('field', ('arg', 1, ANY), 'str')
+    outs = [t for t in d.calls(r'Argument::new_\w+$|Formatter::(write_str|pad|write_char)$|fmt::Display>::fmt$|fmt::Debug>::fmt$')]
+    bad = []
+    for t in outs:
+        nm = (t.callee_res() or '')
+        val = core(sym(d, t.args[1] if re.search(r'Formatter::', nm) else t.args[0]))
+        if not (match(val, SELF_STR) and not re.search(r'new_debug|Debug>::fmt|new_lower|new_upper|write_char', nm)):
+            bad.append((t, val))
+    ctx.require(bool(outs) and not bad, d, 'display-verbatim', 'Display for Character writes self.str verbatim (whitespace::remove / full join Characters through it)',
+                'Display for Character also prints `%s` (line %d): remove() / full() join Characters through Display, so their output is no longer made of the '
+                'characters of the input' % (show_in(d, bad[0][1])[:80] if bad else '?', bad[0][0].span['line'] if bad else 0), bad[0][0].span if bad else None)
     SRC = Call('CharString::chars', Call('CharString::new', ('arg', 1, ANY), ('arg', 2, ANY)))
     notws = lambda conds: len(conds) == 1 and conds[0][1] is False and match(core(conds[0][0]), Call(WS, ITEM))
     isel = lambda e: core(e) == ITEM or core(e) == ('field', ITEM, 'str')
@@ -287,6 +306,21 @@ def charstring_primitive(ctx):
                 n += 1
                 ctx.fail(x, 'narrowing|%s->%s' % (f_, t_), 'a cluster length / count is narrowed from %s to %s at line %d of %s: a grapheme cluster of 256 bytes or more wraps and every later '
                          'character starts at the wrong byte' % (f_, t_, s_.span['line'], fn), s_.span)
+    # who may segment: grapheme clusters are computed in src/unicode.rs only. A second site (`s.graphemes(false).count()` "because only the
+    # number is needed") is a second definition of "character": legacy and extended clusters differ on spacing marks, so its counts
+    # disagree with every index CharString hands out
+    seg = 0
+    for x in ctx.facts.bodies:
+        if not x.file().startswith('src/') or x.span['exp']:
+            continue
+        for t in x.calls(r'UnicodeSegmentation::(graphemes|grapheme_indices|split_word_bounds|unicode_words)$|::graphemes$|::grapheme_indices$'):
+            seg += 1
+            ctx.require(x.file() == 'src/unicode.rs', x, 'segmentation-owner|' + norm_path(x.path).rsplit('::', 1)[-1],
+                        'grapheme segmentation at %s:%d is inside src/unicode.rs' % (x.file(), t.span['line']),
+                        '%s (%s:%d) segments text into grapheme clusters itself (`%s`) instead of going through CharString: two definitions of "character" that '
+                        'disagree on some texts (legacy vs extended clusters, CRLF)' % (norm_path(x.path), x.file(), t.span['line'], (t.callee_res() or '').rsplit('::', 1)[-1]), t.span)
+    if seg < 1:
+        raise AnchorMissing('calls to UnicodeSegmentation::graphemes in the crate')
     adt = ctx.facts.adts.get('unicode::CharString')
     tys = [fl['ty'] for v in (adt['variants'] if adt else ()) for fl in v['fields'] if fl['name'] == 'rle_cluster_lengths']
     ctx.require(bool(tys) and '(usize, usize)' in tys[0], b, 'length-width', 'cluster lengths are stored as usize', 'cluster lengths are stored as %s' % tys)
